@@ -6,6 +6,7 @@ import (
 
 	"github.com/crate-crypto/go-ipa/bandersnatch/fr"
 	"github.com/crate-crypto/go-ipa/banderwagon"
+	"github.com/crate-crypto/go-ipa/zzverif/vsched"
 	"verif.local/engine/core"
 	"verif.local/engine/ref"
 )
@@ -95,8 +96,12 @@ func init() {
 			us = append(us, core.Unit{Name: "batches of lengths 0..300 with duplicates and the identity", Run: func(ctx *core.Ctx, r *core.Result) {
 				needRef()
 				c := conf()
-				lens := []int{0, 1, 2, 3, 15, 16, 17, 31, 32, 33, 255, 256, 257, 300}
-				for _, L := range lens {
+				lens := []int{0, 1, 2, 3, 15, 16, 17, 31, 32, 33, 255, 256, 257, 300, 511, 512, 513, 1000, 1024, 1025, 4097}
+				for li, L := range lens {
+					if vsched.Instrumented {
+						setCPU([]int{0, 1, 3, 16, 17}[li%5])
+						defer setCPU(0)
+					}
 					els := make([]*banderwagon.Element, L)
 					var want []*big.Int
 					store := make([]banderwagon.Element, L)
